@@ -46,6 +46,13 @@ def pm_configs(t):
     for si, seed in enumerate(PS.prop_seeds()):
         cfgs.append({"name": "property#%d" % si, "mode": "property", "tpl": PS.SLOT, "model": PS.prop_model(), "alphabet": PS.PROP,
                      "seed": seed, "newxta": True})
+    # dynamic templates (a defined dynamic template D in front of T): labels, declarations, SMC queries
+    for name, (tpl, sigma, seeds) in PS.dyn_slots().items():
+        for si, seed in enumerate(seeds):
+            cfgs.append({"name": "xml:%s#%d" % (name, si), "mode": "xml", "tpl": tpl, "alphabet": sigma, "seed": seed, "newxta": True})
+    for si, seed in enumerate(PS.dyn_prop_seeds()):
+        cfgs.append({"name": "property:dyn#%d" % si, "mode": "property", "tpl": PS.SLOT, "model": PS.dyn_doc(), "alphabet": PS.DYN + ["Pr[", "<=", "<>", "{", "}"],
+                     "seed": seed, "newxta": True})
     # pretty printer back end: XML blocks and bare blocks
     for name in ("guard", "declaration", "assignment", "select", "system", "parameter", "invariant"):
         tpl, sigma, seeds = PS.xml_slots()[name]
@@ -432,20 +439,74 @@ def semantic_docs(t):
     return docs
 
 
+# dynamic templates: every quantifier over instances x what stands for the template x body shape, in every label kind that
+# takes an expression, in function bodies and in queries; spawn / exit / numOf with every kind of operand
+DYN_Q = ["forall", "exists", "sum", "foreach"]
+DYN_T = ["Worker", "Late", "Undef", "Main", "i", "nosuch", "int"]     # defined / defined after use / never defined / static / variable / unknown / type
+DYN_BODY = ["(b.load > 0)", "b.load > 0", "b.load", "(b)", "b", "(b.load.x)", "(b.b)", "(b.nosuch)", "(b[0])", "(b())", "(b.Idle)", "(b = 1)",
+            "(b.load = 1)", "(b++)", "(b == b)", "(b + 1)", "(-b)", "(b ? 1 : 2)", "(b.load')", "(b')", "(forall (b : Worker)(b.load > 0))",
+            "(exists (c2 : Late)(b.load > c2.late))", "(numOf(Worker) > b.load)", "(b.wk)", "(i.load)", "(Worker.load)", "()", ""]
+DYN_OPS = ["spawn Worker(1)", "spawn Worker()", "spawn Worker(1, 2)", "spawn Worker(x)", "spawn nosuch(1)", "spawn i(1)", "spawn Main()", "spawn Late()",
+           "spawn Undef()", "exit()", "exit(1)", "numOf(Worker)", "numOf(i)", "numOf(nosuch)", "numOf(Main)", "numOf(Undef)", "numOf()",
+           "i = numOf(Worker)", "i = spawn Worker(1)", "spawn Worker(spawn Worker(1))", "spawn Worker(numOf(Worker))"]
+
+
+def dynamic_doc(guard=None, inv=None, assign=None, prob=None, fbody=None, query=None, wbody=None, wassign=None):
+    g = "dynamic Worker(int[0,3] wk); dynamic Late(); dynamic Undef(); int i; clock x; chan c; "
+    if fbody is not None:
+        g += "void gf() { %s; } " % fbody
+    worker = X.template("Worker", params="int[0,3] wk", decl="int load = 1; " + ("void wf() { %s; }" % wbody if wbody is not None else ""),
+                        locations=[X.location("w0", "Idle"), X.location("w1", "Done")], init="w0",
+                        transitions=[X.transition("w0", "w1", assign=wassign)])
+    main = X.template("Main", locations=[X.location("id0", "A", inv=inv), X.location("id1", "B")], branchpoints=["id2"] if prob is not None else [],
+                      init="id0", transitions=[X.transition("id0", "id1", guard=guard, assign=assign)] +
+                      ([X.transition("id1", "id2"), X.transition("id2", "id0", prob=prob)] if prob is not None else []))
+    late = X.template("Late", decl="int late = 2;", locations=[X.location("l0", "Idle")], init="l0")
+    return X.nta(g, [worker, main, late], "M = Main(); system M;", queries=[query] if query is not None else None)
+
+
+def dynamic_docs(t):
+    docs = []
+    for q in DYN_Q:
+        for tn in DYN_T:
+            for body in DYN_BODY:
+                e = "%s (b : %s) %s" % (q, tn, body)
+                lab_ = "%s:%s:%s" % (q, tn, body)
+                docs.append(("sem:dyn-guard:" + lab_, dynamic_doc(guard=e), "xml"))
+                docs.append(("sem:dyn-query:" + lab_, dynamic_doc(query="Pr[<=10](<> %s)" % e), "xmlq"))
+                if t == "thorough" or tn in ("Worker", "Late", "i"):
+                    docs.append(("sem:dyn-invariant:" + lab_, dynamic_doc(inv=e), "xml"))
+                    docs.append(("sem:dyn-assignment:" + lab_, dynamic_doc(assign="i = " + e), "xml"))
+                    docs.append(("sem:dyn-function:" + lab_, dynamic_doc(fbody="i = " + e), "xml"))
+                    docs.append(("sem:dyn-symbolic-query:" + lab_, dynamic_doc(query="E<> " + e), "xmlq"))
+                if t == "thorough":
+                    docs.append(("sem:dyn-probability:" + lab_, dynamic_doc(prob=e), "xml"))
+                    docs.append(("sem:dyn-simulate:" + lab_, dynamic_doc(query="simulate [<=10] { %s }" % e), "xmlq"))
+    for op in DYN_OPS:
+        docs.append(("sem:dyn-op-assignment:" + op, dynamic_doc(assign=op), "xml"))
+        docs.append(("sem:dyn-op-in-dynamic-template:" + op, dynamic_doc(wassign=op), "xml"))
+        docs.append(("sem:dyn-op-function:" + op, dynamic_doc(fbody=op), "xml"))
+        docs.append(("sem:dyn-op-local-function:" + op, dynamic_doc(wbody=op), "xml"))
+        docs.append(("sem:dyn-op-guard:" + op, dynamic_doc(guard=op + " > 0"), "xml"))
+        docs.append(("sem:dyn-op-query:" + op, dynamic_doc(query="Pr[<=10](<> %s > 0)" % op), "xmlq"))
+        docs.append(("sem:dyn-op-symbolic-query:" + op, dynamic_doc(query="E<> %s > 0" % op), "xmlq"))
+    return docs
+
+
 def semantic_shard(arg):
     t, i, n = arg
     part = engine.Part()
     w = engine.worker("san")
-    docs = [d for k, d in enumerate(semantic_docs(t)) if k % n == i]
-    for kind in ("xml", "xta", "xta-old"):
+    docs = [d for k, d in enumerate(semantic_docs(t) + dynamic_docs(t)) if k % n == i]
+    for kind in ("xml", "xmlq", "xta", "xta-old"):
         sel = [d for d in docs if d[2] == kind]
-        res = X.run_docs(w, [d[1] for d in sel], want=[], batch=25, kind="xml" if kind == "xml" else "xta", newxta=kind != "xta-old",
-                         timeout=120, one_timeout=30)
+        res = X.run_docs(w, [d[1] for d in sel], want=["queries"] if kind == "xmlq" else [], batch=25, kind="xml" if kind.startswith("xml") else "xta",
+                         newxta=kind != "xta-old", timeout=120, one_timeout=30)
         for (lab_, doc, _), r in zip(sel, res):
             part.count()
             part.nontrivial_case(lab_)
             cls = ":".join(lab_.split(":")[:2])
-            rp = {"op": "xml" if kind == "xml" else "xta", "newxta": kind != "xta-old", "buf": doc}
+            rp = {"op": "xml" if kind.startswith("xml") else "xta", "newxta": kind != "xta-old", "buf": doc, "want": ["queries"] if kind == "xmlq" else []}
             if r.get("died"):
                 sig = engine.crash_signature(r)
                 part.outcome("crash")
@@ -599,8 +660,10 @@ def main():
                 "repository models through buffer/fd/file with truncations. (3) %d growth families at sizes %s on the -O2 build. "
                 "(4) %d documents whose identifiers / type names / numbers / strings / comments have lengths around the lexer's "
                 "MAXLEN=4000 in 16 position classes, sanitized build. (5) %d documents with semantically invalid but syntactically clean "
-                "declarations (alone, in pairs, in four slots) and labels (the builder's error branches), sanitized build."
-                % (len(cfgs), len(growth_families()), sizes, len(length_docs(t)), len(semantic_docs(t))))
+                "declarations (alone, in pairs, in four slots) and labels (the builder's error branches), and every dynamic-template "
+                "construct (4 quantifiers over instances x 7 kinds of template operand x 28 body shapes; spawn/exit/numOf x 21 operand "
+                "shapes) in guards, invariants, updates, probabilities, function bodies and SMC / symbolic queries, sanitized build."
+                % (len(cfgs), len(growth_families()), sizes, len(length_docs(t)), len(semantic_docs(t)) + len(dynamic_docs(t))))
     rep.nontrivial_count = states + len(xml_docs(t))
     rep.assumptions = ["digest pruning is sound if the digest covers everything later callbacks read (argued in DESIGN.md §3/C01); the "
                        "'shape' digest runs are heuristic and are not counted as exhaustive",
